@@ -347,6 +347,7 @@ pub fn order_corpus(kind: u32) -> Vec<String> {
     // lookups with several candidate matches: arcs of every size (corrupted circles) and circles touching circles
     v.extend(circle_defect_family(if kind == 0 { 13 } else { 40 }));
     v.extend(touching_circles_family());
+    v.extend(circle_parts_family());
     v.extend(overlapping_bbox_family().into_iter().step_by(4));
     for d in [
         "+-------+\n|{a,b,c}|\n+-------+",
@@ -471,6 +472,41 @@ pub fn circle_defect_family(max_width: usize) -> Vec<String> {
                 v.push(h.iter().map(|r| r.iter().collect::<String>()).collect::<Vec<_>>().join("\n"));
             }
         }
+    }
+    v
+}
+
+/// the four quadrants and four halves of every catalogue circle from the fourth on (quarter and half arcs of every size)
+pub fn circle_parts_family() -> Vec<String> {
+    let mut v = vec![];
+    for art in catalog().into_iter().skip(3) {
+        let (w, h) = crate::enumr::extent(&art);
+        let rows: Vec<Vec<char>> = art
+            .split('\n')
+            .map(|l| {
+                let mut r: Vec<char> = l.chars().collect();
+                while r.len() < w {
+                    r.push(' ');
+                }
+                r
+            })
+            .collect();
+        let part = |keep: &dyn Fn(usize, usize) -> bool| -> String {
+            rows.iter()
+                .enumerate()
+                .map(|(r, row)| row.iter().enumerate().map(|(c, ch)| if keep(c, r) { *ch } else { ' ' }).collect::<String>().trim_end().to_string())
+                .collect::<Vec<_>>()
+                .join("\n")
+        };
+        let (mx, my) = (w / 2, h / 2);
+        v.push(part(&|c, r| c < (w + 1) / 2 && r < (h + 1) / 2));
+        v.push(part(&|c, r| c >= mx && r < (h + 1) / 2));
+        v.push(part(&|c, r| c < (w + 1) / 2 && r >= my));
+        v.push(part(&|c, r| c >= mx && r >= my));
+        v.push(part(&|c, _r| c >= mx));
+        v.push(part(&|c, _r| c < (w + 1) / 2));
+        v.push(part(&|_c, r| r >= my));
+        v.push(part(&|_c, r| r < (h + 1) / 2));
     }
     v
 }
